@@ -1,6 +1,7 @@
 (* C05 (and C18) entry points of the extracted model, specification and class predicates. *)
 From Coq Require Extraction ExtrOcamlBasic ExtrOcamlString.
 From Coq Require Import List Arith.
+Require Import TT.Model.C05TypeStr.
 Require Import TT.Model.Str TT.Model.TypeParse TT.Model.C05Parse TT.Spec.TsType TT.Model.Render TT.Model.C05Emit.
 Require Import TT.Spec.C05Spec TT.Spec.C05Known TT.Proofs.TypeParseProofs.
 
@@ -21,7 +22,11 @@ Definition c05_classes (s : site) (md : mode) (m : mapping) (t : rty) : list kcl
 Definition c05_dom (m : mapping) (t : rty) : bool := dom_m m t.
 Definition c05_dom_plain (t : rty) : bool := dom_b t.
 Definition c05_print (t : tsty) : list tok := pr t.
+Definition c05_pr_cmd (t : xty) : str := pr_cmd t.
+Definition c05_pr_struct (t : xty) : str := pr_struct t.
+Definition c05_pr_chan (t : xty) : str := pr_chan t.
 
 Extraction Language OCaml.
 Extraction "tt_c05.ml" c05_tts c05_parse c05_sem c05_is_optional c05_emit c05_emit_str c05_plain c05_prefix
-  c05_zvisit c05_zbuild c05_observe c05_expected c05_oracle c05_classes c05_dom c05_dom_plain c05_print.
+  c05_zvisit c05_zbuild c05_observe c05_expected c05_oracle c05_classes c05_dom c05_dom_plain c05_print
+  c05_pr_cmd c05_pr_struct c05_pr_chan.
